@@ -19,15 +19,22 @@ STATES = ["never-used", "results-unread", "closed", "died-by-exception", "killed
 LONG = 300
 
 
-def h_restart(kind, state, chain, pipemode):
+FK = 40
+
+
+def h_restart(kind, state, chain, pipemode, fk):
     with notrace():
         kind_ = 3 + conc(kind, 3)
         state_, chain_, pipemode_ = conc(state, len(STATES)), 1 + conc(chain, 3), conc(pipemode, 2)
+        fk_ = conc(fk, FK + 1) if kind_ == 5 else 0
         name = wsim.KIND_NAMES[kind_]
         ev("c17", name, STATES[state_], chain_, pipemode_)
         T.reset()
         W = wsim.World(server=wsim.is_remote_kind(kind_))
         try:
+            if fk_:
+                # the parent-side forwarding thread of the first incarnation is slow at its (fk-1)-th statement
+                wsim.Landing(W, kind_, fk_ - 1, action="delay", select=wsim.frontend_actor, delay=2.0)
             sig, inter = _run(W, kind_, state_, chain_, pipemode_)
         except Hang:
             sig, inter = "c17.restart-blocks-forever", True
@@ -112,7 +119,12 @@ def _run(W, kind, state, chain, pipemode):
             still = old_procs & child_procs(W)
             if still:
                 return "c17.old-child-process-still-running", True
-        w.enqueue("ok", 7 + inc)
+        try:
+            w.enqueue("ok", 7 + inc)
+        except (Hang, Killed):
+            raise
+        except Exception as e:  # noqa
+            return "c17.new-incarnation-refuses-input(%s)" % type(e).__name__, True
         try:
             if pipemode:
                 msg = rkw["results_pipe"].parent_end.recv()
@@ -140,7 +152,7 @@ def _run(W, kind, state, chain, pipemode):
     return None, state != 0
 
 
-_params = OrderedDict([("kind", (0, 2)), ("state", (0, len(STATES) - 1)), ("chain", (0, 2)), ("pipemode", (0, 1))])
+_params = OrderedDict([("kind", (0, 2)), ("state", (0, len(STATES) - 1)), ("chain", (0, 2)), ("pipemode", (0, 1)), ("fk", (0, FK))])
 
 _FUNCS = ["pyworkers.persistent:PersistentWorker.restart", "pyworkers.worker:Worker._get_restart_args", "pyworkers.remote:RemoteWorker._get_restart_args",
           "pyworkers.persistent_thread:PersistentThreadWorker.__init__", "pyworkers.persistent_process:PersistentProcessWorker.__init__",
@@ -164,6 +176,8 @@ SPEC = PropSpec(
         "'uncooperative' = target swallowing every Exception for 300 model seconds",
         "for the thread kind an uncooperative target cannot be stopped: RuntimeError is the specified outcome",
         "old child processes must be gone 5 model seconds after restart() returned",
+        "remote kind: optionally the forwarding thread of the first incarnation sleeps 2 model seconds at one of its first 40 statements, so that restart() "
+        "meets an old incarnation whose parent-side thread is still finishing",
     ],
     outside=["restart(timeout=None) on a child that never exits (the caller asked to wait forever)", "more than 3 consecutive restarts"],
     stubs=["vf/simos.py"],
